@@ -58,6 +58,10 @@ func setupFastlyHeaders(req *http.Request) {
 }
 
 func (i *Interpreter) createBackendRequest(ctx *icontext.Context, backend *value.Backend) (*http.Request, error) {
+	if backend == nil || backend.Value == nil {
+		// e.g. req.backend assigned from a BACKEND local that was never set
+		return nil, exception.Runtime(nil, "No backend determined")
+	}
 	var port string
 	if v, err := i.getBackendProperty(backend.Value.Properties, "port"); err != nil {
 		return nil, errors.WithStack(err)
